@@ -42,6 +42,45 @@ def _windows(cls, attrs, k):
     return out
 
 
+def _features(seq):
+    """what a behaviour exercises, per slot: assignment, re-assignment of the same slot with another value (tells
+    PersistsBeforeStoring from ForgetsPersist), assign-the-same, both orders of two slots, re-open after an assignment"""
+    out = set()
+    prev = None
+    for act, a, _t in seq:
+        if act == "Set":
+            out.add(("Set", a))
+            if prev and prev[0] == "Set" and prev[1] == a:
+                out.add(("Twice", a))
+            if prev and prev[0] == "Set" and prev[1] != a:
+                out.add(("Order", prev[1], a))
+        elif act == "SetSame":
+            out.add(("SetSame", a))
+        elif act == "SetInvalid":
+            out.add(("SetInvalid", a))
+        elif act == "Close" and prev and prev[0] in ("Set", "SetSame"):
+            out.add(("CloseAfterSet", prev[1]))
+        elif act == "Open":
+            out.add(("Open",))
+        prev = (act, a)
+    return out
+
+
+def _select(cover, start):
+    """smallest greedy sub-family of the transition cover (rotated by `start`) that still has every feature"""
+    feats = [_features(q) for q in cover]
+    need = set().union(*feats)
+    order = [(start + i) % len(cover) for i in range(len(cover))]
+    chosen = []
+    while need:
+        best = max(order, key=lambda i: (len(feats[i] & need), -order.index(i)))
+        if not feats[best] & need:
+            break
+        chosen.append(best)
+        need -= feats[best]
+    return [cover[i] for i in chosen]
+
+
 def _orders_sequences(cfg):
     """TLC run with the history in the state: every order of assignments / re-opens up to MaxDepth is a distinct
     behaviour; -> (TLCResult, list of action sequences = the maximal histories)"""
@@ -96,6 +135,8 @@ def run(tier, seed):  # pylint: disable=too-many-locals,too-many-statements,too-
     classes_not_instantiated = {}
     per_target = {}
     o_idx = rng.randrange(len(orders))
+    representative = {}
+    n_full = 0
     for t, c in zip(targets, cen):
         name = W.target_name(t)
         pairs_total += len(t["attrs"])
@@ -118,9 +159,16 @@ def run(tier, seed):  # pylint: disable=too-many-locals,too-many-statements,too-
             wins = _windows(t["cls"], attrs, k)
         bound = {a for w in wins for a in w}
         n_items0 = len(items)
-        for w in wins:
-            for q in cover:
-                items.append({"target": t, "attrs": w, "path": q, "graph": "track", "variant": "cover"})
+        for wi, w in enumerate(wins):
+            # the class through which the setter of slot 1 is first met replays the whole transition cover; the classes
+            # that inherit the same setter replay a sub-family with every kind of step on every slot
+            key = (t["defined_in"].get(w[0]), w[0], t["kind"])
+            full = key not in representative
+            representative.setdefault(key, name)
+            chosen = cover if full else _select(cover, wi + len(items))
+            n_full += full
+            for q in chosen:
+                items.append({"target": t, "attrs": w, "path": q, "graph": "track", "variant": "cover" if full else "cover-sub"})
             # a share of the all-orders behaviours, dealt round-robin over all bindings
             share = 2 if tier == "quick" else 12
             for _ in range(share):
@@ -195,6 +243,7 @@ def run(tier, seed):  # pylint: disable=too-many-locals,too-many-statements,too-
         "classes_discovered": len(targets), "classes_instantiated": len(targets) - len(classes_not_instantiated),
         "pairs_discovered": pairs_total, "pairs_exercised": len(exercised_pairs),
         "pairs_not_exercised": len(not_exercised),
+        "windows_with_full_transition_cover": n_full, "distinct_setters": len(representative),
         "orders_behaviours_available": len(orders), "orders_behaviours_replayed": orders_replayed,
         "exhaustive": False,
         "per_config": per_cfg, "negative_controls": negs, "per_class": per_target,
